@@ -37,6 +37,8 @@ PROPS = {
         ],
         "quick": [fam("setops")],
         "thorough": [fam("setops", "asan")],
+        # minimised past failures (both repaired by fix: commits), replayed first on every run
+        "corpus": [fam("setops", seed=1, case=9), fam("setops", seed=2, case=19)],
         "design_ref": "DESIGN.md §5 C04",
         "partial": [],
         "level_text": "Lean theorems union_eval/inter_eval/diff_eval/compl_eval: the model's apply (position-wise recursion + createReducedNode) denotes the pointwise Boolean operator for every domain, every triple of reduction rules and every operand; apply2_unique + DD.canon: any reduced result with that denotation is that tree. Tie: differential runs of the real UNION/INTERSECTION/DIFFERENCE/COMPLEMENT over random domains, all forest triples and aliasing patterns, cold and warm caches, against the pointwise oracle, operands re-read afterwards.",
